@@ -6,10 +6,14 @@
     operator; the parser drops comment tokens.  C11_only_reported_positions_move (Proofs/Compose.v, from Sim2.v): two
     statement vectors that differ only in the line/file metadata of their statements and expressions -- what two layouts
     of one token sequence produce -- run alike: same output, same world, same result, errors of the same kind located at
-    the mapped position.  Not proved: removing a blank where two tokens cannot fuse, for all token pairs (needs a per-pair
-    fusion analysis); covered by the layout stream (minimal / random layouts, comments). *)
+    the mapped position.  Proofs/LexFuse.v: one step of the tokenizer looks at the text of the token it makes and at most at
+    one character behind it, and [nofuse prev p tail] names, per kind of token text p, what that character must not be;
+    then the token is the same whatever follows (C11_token_boundary_is_local) and a run of blanks after it can be removed
+    (C11_blanks_between_tokens_are_optional): removing blanks where the two tokens cannot fuse, for every pair of tokens.
+    Still stream-only: comment blocks between statements are dropped by the parser at statement starts only -- a comment
+    inside a statement is a syntax error in some positions -- the layout stream places them. *)
 From Pakhi Require Import Base Float64 Syntax Tables Lexer Parser Interp.
-From Pakhi.Proofs Require Import LexLayout LexSpans WF Sim2Defs Sim2 Compose.
+From Pakhi.Proofs Require Import LexLayout LexSpans LexFuse WF Sim2Defs Sim2 Compose.
 Local Open Scope nat_scope.
 
 Theorem C11_only_reported_positions_move : forall pi code platform w fuel schedA schedB,
@@ -75,3 +79,33 @@ Proof. exact parser_drops_comments. Qed.
 Print Assumptions C11_parser_drops_comments.
 
 (* a comment block is one token (C10_one_token) whose text is the whole #...# block: the parser never sees its inside *)
+
+(** removing a blank where two tokens cannot fuse.  [nofuse prev p tail]: p is the text of a token, tail what follows;
+    a number must not be followed by a digit or '.', a lone '-' not by '>' nor -- unless it follows an operand -- by a
+    digit, the one-character form of a two-character operator not by its second character, an identifier or keyword
+    not by an identifier character; strings, comments and the other operators by anything *)
+Theorem C11_token_boundary_is_local : forall rest line file prev tk n dl, consume rest line file prev = Ok (Some tk, n, dl) ->
+  forall tail', nofuse prev (firstn n rest) tail' ->
+  consume (firstn n rest ++ tail') line file prev = Ok (Some tk, n, dl).
+Proof. exact consume_local. Qed.
+Print Assumptions C11_token_boundary_is_local.
+
+Theorem C11_blanks_between_tokens_are_optional : forall p blanks tail line file prev tk dl,
+  consume (p ++ blanks ++ tail) line file prev = Ok (Some tk, length p, dl) ->
+  forallb is_blank blanks = true -> nofuse prev p tail ->
+  forall fuel pos,
+    same_tokens (lex_loop (S (length blanks + fuel)) (p ++ blanks ++ tail) pos line file prev)
+                (lex_loop (S fuel) (p ++ tail) pos line file prev).
+Proof. exact blanks_between_tokens_are_optional. Qed.
+Print Assumptions C11_blanks_between_tokens_are_optional.
+
+(* the examples of the property text: in `৫-১` the number ৫ may be followed by '-', and the '-' -- after a number, a closing
+   bracket or a closing parenthesis -- by the digit ১; in `নাম-১` nothing may be removed (the '-' would be part of the name) *)
+Example C11_nofuse_examples :
+  nofuse None [2539]%N [45; 2535]%N /\ nofuse (Some (TNum (S754_zero false))) [45]%N [2535]%N /\
+  nofuse (Some TRSquare) [45]%N [2535]%N /\ nofuse (Some TRParen) [45]%N [2535]%N /\
+  ~ nofuse (Some TEqual) [45]%N [2535]%N /\ ~ nofuse None [2472; 2494; 2478]%N [45; 2535]%N.
+Proof.
+  unfold nofuse, stops_num, ahead. vm_compute. repeat split; auto; intros H; repeat match goal with H : _ /\ _ |- _ => destruct H end; try discriminate.
+  all: match goal with H : _ \/ _ |- _ => destruct H; discriminate end.
+Qed.
